@@ -223,6 +223,29 @@ func verifyFunction(l *Loaded, specs *Specs, ct *Contract) (rep *FuncReport, w *
 	if ct.ModStated && !ct.ModAll {
 		w.frameObligations(fr, ct, exit, env)
 	}
+	if ct.ModAll && len(ct.Preserves) > 0 {
+		// "modifies all" with a preserves list: the preserved keys are a frame obligation
+		alloc0 := w.hget(fr.entry, allocKey)
+		for _, pe := range ct.Preserves {
+			for _, k := range w.preservedKeys(env, pe) {
+				post, prev := w.hget(exit, k), w.hget(fr.entry, k)
+				if post.S == prev.S {
+					continue
+				}
+				idxSort, _, isArr := arrayParts(w.heapSort[k])
+				goal := eq(post, prev)
+				if isArr && idxSort == SInt {
+					q := w.sc.fresh("frame.idx", SInt)
+					goal = implies(and(le(q, alloc0), lt(intLit(0), q)), eq(sel(post, q), sel(prev, q)))
+				}
+				props := ct.FrameProps
+				if len(props) == 0 {
+					props = ct.Props
+				}
+				w.oblige("frame", "preserves."+k, exit.cond, goal, ct.FrameStar, props)
+			}
+		}
+	}
 	// an "at" assertion whose instruction no longer exists in the body is undecided, not passed
 	for _, as := range ct.Asserts {
 		if !w.firedAsserts[as] {
